@@ -30,6 +30,16 @@ ASSUMPTIONS = [
 ]
 
 
+def imp_groups(d, imp):
+    """Spell a two-particle importance either keyword by keyword or, when
+    the values agree, with one grouped keyword (imp:n,p= / imp:p,n=)."""
+    if imp['n'] == imp['p'] and d(st.booleans()):
+        return [(d(st.sampled_from(['n,p', 'p,n'])), imp['n'])]
+    if d(st.booleans()):
+        return [('p', imp['p']), ('n', imp['n'])]
+    return [('n', imp['n']), ('p', imp['p'])]
+
+
 @st.composite
 def like_free_case(draw, tier='quick'):
     b = gen_hier.Builder(draw, tier, {'lattice': False})
@@ -61,9 +71,9 @@ def like_free_case(draw, tier='quick'):
         opt = options()
         imp = {'n': d(st.sampled_from([1, 1, 2]))}
         groups = None
-        if d(st.integers(0, 3)) == 0:
-            imp['p'] = d(st.sampled_from([1, 0]))
-            groups = [('n', imp['n']), ('p', imp['p'])]
+        if d(st.integers(0, 2)) == 0:
+            imp['p'] = d(st.sampled_from([1, 0, imp['n']]))
+            groups = imp_groups(d, imp)
         c = md.cell(b.new_cid(), mat, rho, expr, imp=imp, u=opt.get('u'),
                     fill=opt.get('fill'), trcl=opt.get('trcl'))
         if groups:
@@ -98,11 +108,11 @@ def like_free_case(draw, tier='quick'):
         if ks & 16:
             but['trcl'] = b.transform_ref(2.0, allow_none=False)
         if ks & 32:
-            but['imp'] = {'n': d(st.sampled_from([0, 1, 3]))}
-            if d(st.integers(0, 3)) == 0:
-                but['imp']['p'] = d(st.sampled_from([0, 1]))
-                but['imp_groups'] = [('n', but['imp']['n']),
-                                     ('p', but['imp']['p'])]
+            but['imp'] = {'n': d(st.sampled_from([0, 0, 1, 3]))}
+            if d(st.integers(0, 1)) == 0:
+                but['imp']['p'] = d(st.sampled_from([0, 1, but['imp']['n']]))
+                but['imp_groups'] = imp_groups(d, but['imp'])
+                labels.add('like:imp-two-particles')
         if not but:
             but['trcl'] = b.transform_ref(2.0, allow_none=False)
         lc = md.cell(b.new_cid(), 0, None, None,
